@@ -38,9 +38,14 @@ pub assume_specification<T: Clone>[ <T as std::borrow::ToOwned>::to_owned ](x: &
 pub assume_specification<T: Clone>[ <T as std::borrow::ToOwned>::clone_into ](x: &T, target: &mut T)
     ensures cloned::<T>(*x, *final(target));
 
+/// a str / String is determined by its characters
+pub broadcast axiom fn axiom_str_view_injective(a: &str, b: &str)
+    ensures (#[trigger] a@ == #[trigger] b@) ==> a == b;
+
 pub broadcast group group_std_extra {
     axiom_hm_key_is_same,
     axiom_arc_string_key_model,
+    axiom_str_view_injective,
 }
 
 } // verus!
